@@ -31,12 +31,14 @@
 //     its only use of M_RECV.db — is translated as if it ended in `return M_K, M_V`: the generated
 //     definition yields the arguments of the engine call (`Set`: the key and the encoded string value);
 //   - receiver fields of type []byte (one-line change in main.go's `expr`): extra parameters
-//     `recv_field : ByteArray`, read only (assigning a receiver field is outside the subset anyway).
+//     `recv_field : ByteArray`, read only (assigning a receiver field is outside the subset anyway); the
+//     receiver-field parameters are listed in the declaration order of the struct (dtSortRecvFields).
 package main
 
 import (
 	"go/ast"
 	"go/types"
+	"sort"
 	"strings"
 )
 
@@ -163,6 +165,27 @@ func (t *tr) dtCheckPkg(ce *ast.CallExpr, ident, path string) {
 	if !ok || !(pn.Imported().Path() == path || strings.HasSuffix(pn.Imported().Path(), "/"+path)) {
 		failAt(ce, "%s: %s is not the import of %s", src(ce), ident, path)
 	}
+}
+
+// dtSortRecvFields: the extra parameters standing for receiver fields, in the declaration order of the struct
+// (first-use order would make the argument order of the generated definition depend on harmless rewrites)
+func (t *tr) dtSortRecvFields() {
+	if t.recvObj == nil || len(t.recvFields) < 2 {
+		return
+	}
+	ty := types.Unalias(t.recvObj.Type())
+	if ptr, ok := ty.(*types.Pointer); ok {
+		ty = types.Unalias(ptr.Elem())
+	}
+	st, ok := ty.Underlying().(*types.Struct)
+	if !ok {
+		return
+	}
+	pos := map[string]int{}
+	for i := 0; i < st.NumFields(); i++ {
+		pos[st.Field(i).Name()] = i
+	}
+	sort.SliceStable(t.recvFields, func(i, j int) bool { return pos[t.recvFields[i].field] < pos[t.recvFields[j].field] })
 }
 
 // ---- clock reads -------------------------------------------------------------------------------
